@@ -2,6 +2,7 @@ package rules
 
 import (
 	"go/ast"
+	"go/token"
 	"strings"
 
 	"verif/checker/eng"
@@ -199,6 +200,34 @@ func c07Default(c *cx) {
 		c.r.Check(id, f, "sender read before the handler runs", "O: the from attribute used for the default reply is read on every path before Handler.HandleXMPP gets the start element, and never after it", cl.Pos(), g.MustPassBefore(g.Entry(), hpt, func(q eng.Point, nd ast.Node) bool { return containsNode(nd, cl) }, nil) && !g.Reachable(g.After(hpt), fpt, nil, nil), "the sender is (also) read after the handler had access to the start element")
 	}
 	c.r.Floor(id, "reads of the request's sender", nFrom, 1)
+	// more generally: nothing about the request is read from the start element
+	// once the handler has been handed a pointer to it (a forwarding handler
+	// rewrites the name or the attributes in place): every decision after the
+	// handler uses values captured before the call
+	if len(hc.Args) == 2 {
+		if u, ok := ast.Unparen(hc.Args[1]).(*ast.UnaryExpr); ok && u.Op == token.AND {
+			if sid, ok := ast.Unparen(u.X).(*ast.Ident); ok {
+				sv := f.Info().ObjectOf(sid)
+				var late ast.Node
+				f.WalkBody(func(x ast.Node) bool {
+					idn, ok := x.(*ast.Ident)
+					if !ok || late != nil || f.Info().Uses[idn] != sv || idn == sid {
+						return true
+					}
+					up, oku := g.Where(idn)
+					if oku && g.Reachable(g.After(hpt), up, nil, nil) {
+						late = idn
+					}
+					return true
+				})
+				why := ""
+				if late != nil {
+					why = "the start element is read at " + c.p.Pos(late.Pos()) + ", after the handler could have rewritten it"
+				}
+				c.r.Check(id, f, "request start element not read after the handler ran", "O: no use of the start element handed to the handler is reachable after the handler call", hc.Pos(), late == nil, why)
+			}
+		}
+	}
 	ownAttrLookups(c, id, func(x *eng.Fn) bool { return x == f })
 	for _, ce := range g.EdgesMatching("!eq(internal/attr.Own(*.Attr,\"from\")#1,\"\")") {
 		from := g.EdgeTarget(ce.E)
